@@ -71,14 +71,19 @@ func main() {
 		if len(os.Args) > 2 {
 			repo = os.Args[2]
 		}
-		keys, err := listFuncKeys(repo, "tars")
+		lits, err := listFuncLits(repo, "tars")
 		if err != nil {
 			fmt.Fprintln(os.Stderr, err)
 			os.Exit(2)
 		}
-		fmt.Println("# functions declared in the pinned tree (dir|receiver|name); anything else is a new function, see inline.go")
+		var keys []string
+		for k := range lits {
+			keys = append(keys, k)
+		}
+		sort.Strings(keys)
+		fmt.Println("# functions declared in the pinned tree: dir|receiver|name <tab> number of function literals in the body; anything else is new, see inline.go")
 		for _, k := range keys {
-			fmt.Println(k)
+			fmt.Printf("%s\t%d\n", k, lits[k])
 		}
 	case "list":
 		sort.SliceStable(allRules, func(i, j int) bool { return allRules[i].ID < allRules[j].ID })
